@@ -370,6 +370,64 @@ def handleIO (op : String) (args : List String) (impl : Option (List String)) : 
       let pv := impl.map fun _ => decide (Writer.written ops = f)
       return (out, pv)
     | none => return ("BADOP", none)
+  | "COPY", [tpath, fl, srcs, before] =>
+    -- `before` = untouched copy of the target as it was before the op (the harness modifies tpath in place)
+    let tb ← readFile before
+    let ta ← (do if impl.isSome then readFile tpath else pure [])
+    match Header.openFile Sha.zckHash tb with
+    | .ok th =>
+      let valid0 : List Int := if fl == "-" then (Reader.validateChecksums Sha.zckHash tb (Reader.openCtx th)).2.valid else flagsOf fl
+      let mut t : Copy.Tgt := ⟨tb, valid0⟩
+      let mut rets := ""
+      let mut same := ""
+      for sp in srcs.splitOn "," do
+        let sb ← readFile sp
+        match Header.openFile Sha.zckHash sb with
+        | .ok sh =>
+          t := Copy.copyChunks Sha.zckHash sb sh th t
+          rets := rets ++ "1"; same := same ++ "1"
+        | _ => rets := rets ++ "e"; same := same ++ "1"
+      let out := s!"OK r={rets} flags={showFlags t.valid} tgt={PredRead.showBytes t.f} src={same}"
+      let pv := impl.map fun i =>
+        match i with
+        | "OK" :: rest =>
+          match kv rest "flags", kv rest "src" with
+          | some fa, some ss => PredCopy.c08_ok Sha.zckHash tb ta valid0 (flagsOf fa) (ss.toList.all (· == '1'))
+          | _, _ => false
+        | _ => false
+      return (out, pv)
+    | _ => return ("ERR open-tgt", impl.map fun i => i == ["ERR", "open-tgt"])
+  | "MATCH", [spath, tpath, fl] =>
+    let sb ← readFile spath
+    let tb ← readFile tpath
+    match Header.openFile Sha.zckHash sb, Header.openFile Sha.zckHash tb with
+    | .ok sh, .ok th =>
+      let m := Copy.findMatching sh th (flagsOf fl)
+      let txt := ",".intercalate (m.map fun (v, s) => s!"{v}:{match s with | some k => toString k | none => "self"}")
+      -- C08 (matching), on the IMPLEMENTATION's pairs: a pair is made only for equal (un)compressed checksum
+      -- and equal uncompressed length
+      let pairOk := fun (v : Int) (s : Option Nat) (tc : Format.Chunk) =>
+        match s with
+        | none => true
+        | some k => match sh.chunks[k]? with
+          | some sc => v == 1 && sc.len == tc.len &&
+              (if sh.compType == th.compType then sc.digest == tc.digest else sc.udigest == tc.udigest && sc.udigest.isSome)
+          | none => false
+      let pv := impl.map fun i =>
+        match i with
+        | "OK" :: rest =>
+          match kv rest "m" with
+          | some ms =>
+            let items := if ms == "-" then [] else ms.splitOn ","
+            items.length == th.chunks.length &&
+            (items.zip th.chunks).all fun (it, tc) =>
+              match it.splitOn ":" with
+              | [v, k] => pairOk (v.toInt?.getD 0) (if k == "self" then none else k.toNat?) tc
+              | _ => false
+          | none => false
+        | _ => false
+      return (s!"OK r=1 m={if txt.isEmpty then "-" else txt}", pv)
+    | _, _ => return ("ERR open", impl.map fun i => i == ["ERR", "open"])
   | "META", [path] =>
     let f ← readFile path
     let m := Header.openFile Sha.zckHash f
